@@ -828,3 +828,115 @@ Proof.
   - destruct C as (r & c & _ & ->). split; [discriminate|discriminate].
   - destruct C as (c & _ & ->). split; [discriminate|discriminate].
 Qed.
+
+(* ================================================================== concurrent requests: product of independent copies *)
+Lemma nth_error_set_nth {A} (x : A) : forall l i j,
+  nth_error (set_nth i x l) j =
+  if Nat.eqb i j then match nth_error l j with Some _ => Some x | None => None end else nth_error l j.
+Proof.
+  induction l as [|a r IH]; intros [|i] [|j]; simpl; auto;
+    try (destruct (Nat.eqb i j); destruct j; reflexivity).
+Qed.
+
+Section ProductProofs.
+  Context {S L : Type} (stp : L -> S -> option S).
+
+  (* a step of request i is enabled in the product iff it is enabled for request i alone: nothing another
+     request does (or fails to do: a parked, abandoned handler) can delay it *)
+  Lemma pstep_enabled i l ss :
+    (exists ss', pstep stp (i, l) ss = Some ss') <-> (exists s s', nth_error ss i = Some s /\ stp l s = Some s').
+  Proof.
+    unfold pstep; simpl. split.
+    - intros [ss' H]. destruct (nth_error ss i) as [s|]; [|discriminate]. destruct (stp l s) as [s'|] eqn:E; [|discriminate]. eauto.
+    - intros (s & s' & -> & ->). eauto.
+  Qed.
+
+  Lemma pstep_frame i l ss ss' : pstep stp (i, l) ss = Some ss' ->
+    List.length ss' = List.length ss /\
+    (forall j, j <> i -> nth_error ss' j = nth_error ss j) /\
+    (exists s s', nth_error ss i = Some s /\ stp l s = Some s' /\ nth_error ss' i = Some s').
+  Proof.
+    unfold pstep; simpl. destruct (nth_error ss i) as [s|] eqn:E; [|discriminate].
+    destruct (stp l s) as [s'|] eqn:E'; [|discriminate]. intro H; inversion H; subst; clear H. repeat split.
+    - apply length_set_nth.
+    - intros j Hj. rewrite nth_error_set_nth. destruct (Nat.eqb i j) eqn:Q; [apply Nat.eqb_eq in Q; congruence|reflexivity].
+    - exists s, s'. repeat split; auto. rewrite nth_error_set_nth, Nat.eqb_refl, E. reflexivity.
+  Qed.
+
+  Lemma prun_independent : forall ls ss ss', prun stp ls ss = Some ss' ->
+    List.length ss' = List.length ss /\
+    forall i s, nth_error ss i = Some s ->
+      exists s', nth_error ss' i = Some s' /\ grun stp (proj i ls) s = Some s'.
+  Proof.
+    induction ls as [|[k l] r IH]; simpl; intros ss ss' H.
+    - inversion H; subst. split; [reflexivity|]. intros i s Hs. exists s. auto.
+    - destruct (pstep stp (k, l) ss) as [ss1|] eqn:E; [|discriminate].
+      destruct (pstep_frame _ _ _ _ E) as (Hlen & Hother & s0 & s1 & Hs0 & Hst & Hs1).
+      destruct (IH _ _ H) as [Hlen' Hall]. split; [congruence|]. intros i s Hs. unfold proj; simpl.
+      destruct (Nat.eqb k i) eqn:Q.
+      + apply Nat.eqb_eq in Q; subst k. rewrite Hs in Hs0; inversion Hs0; subst s0. simpl. rewrite Hst.
+        apply Hall. assumption.
+      + apply Hall. rewrite Hother; [assumption|]. intro C; subst. rewrite Nat.eqb_refl in Q. discriminate.
+  Qed.
+End ProductProofs.
+
+Lemma grun_run recover ls : forall s, grun (step recover) ls s = run recover ls s.
+Proof. induction ls as [|l r IH]; simpl; intro s; [reflexivity|]. destruct (step recover l s); auto. Qed.
+Lemma grun_rrun crash ls : forall s, grun (rstep crash) ls s = rrun crash ls s.
+Proof. induction ls as [|l r IH]; simpl; intro s; [reflexivity|]. destruct (rstep crash l s); auto. Qed.
+
+(* m requests with scripts/headers reqs through one TimeoutHandler instance *)
+Definition pinit (reqs : list (hdrs * list action)) : list state := map (fun q => init (fst q) (snd q)) reqs.
+
+Lemma t_requests_independent : forall recover reqs ls ss,
+  prun (step recover) ls (pinit reqs) = Some ss ->
+  List.length ss = List.length reqs /\
+  (forall i rh0 acts, nth_error reqs i = Some (rh0, acts) ->
+     exists s, nth_error ss i = Some s /\
+       (* exactly the state request i reaches ALONE under its own part of the schedule *)
+       run recover (proj i ls) (init rh0 acts) = Some s /\
+       (* hence exactly its own response or its own timeout response *)
+       match st_sel s with
+       | None => rw_log (st_rw s) = []
+       | Some ArmDone => exists r, handler_response recover rh0 acts = Some r /\ committed (st_rw s) r
+       | Some ArmFired => exists c, st_fired s = Some c /\ committed (st_rw s) (timeout_response c rh0)
+       | Some ArmPanic => handler_response recover rh0 acts = None /\ recover = false /\ rw_log (st_rw s) = []
+       end) /\
+  (* and no request can be delayed by another: enabledness of its steps is its own business *)
+  (forall i l, (exists ss', pstep (step recover) (i, l) ss = Some ss') <->
+               (exists s s', nth_error ss i = Some s /\ step recover l s = Some s')).
+Proof.
+  intros recover reqs ls ss H. destruct (prun_independent _ _ _ _ H) as [Hlen Hall]. split; [|split].
+  - rewrite Hlen. unfold pinit. apply map_length.
+  - intros i rh0 acts Hq. assert (Hs : nth_error (pinit reqs) i = Some (init rh0 acts)).
+    { unfold pinit. rewrite nth_error_map, Hq. reflexivity. }
+    destruct (Hall _ _ Hs) as (s & Hn & Hr). rewrite grun_run in Hr. exists s. split; [assumption|]. split; [assumption|].
+    pose proof (classify recover rh0 acts s (ex_intro _ _ Hr)) as C. destruct (st_sel s) as [[| |]|].
+    + destruct C as (-> & A & B). auto.
+    + destruct C as (r & A & B & _). eauto.
+    + destruct C as (c & A & B & _). eauto.
+    + rewrite C. reflexivity.
+  - intros i l. apply pstep_enabled.
+Qed.
+
+Lemma t_rpc_requests_independent : forall crash hs ls ss,
+  prun (rstep crash) ls (map rinit hs) = Some ss ->
+  List.length ss = List.length hs /\
+  (forall i h, nth_error hs i = Some h ->
+     exists s, nth_error ss i = Some s /\ rrun crash (proj i ls) (rinit h) = Some s /\
+       match rs_out s with
+       | None => True
+       | Some (ArmDone, res) => exists r c, h = HReturn r c /\ res = RResult r c
+       | Some (ArmFired, res) => exists c, rs_fired s = Some c /\ res = RResult None (deadline_code c)
+       | Some (ArmPanic, res) => h = HPanics /\ res = (if crash then RResult None codeInternal else RPropagatedPanic)
+       end) /\
+  (forall i l, (exists ss', pstep (rstep crash) (i, l) ss = Some ss') <->
+               (exists s s', nth_error ss i = Some s /\ rstep crash l s = Some s')).
+Proof.
+  intros crash hs ls ss H. destruct (prun_independent _ _ _ _ H) as [Hlen Hall]. split; [|split].
+  - rewrite Hlen. apply map_length.
+  - intros i h Hq. assert (Hs : nth_error (map rinit hs) i = Some (rinit h)) by (rewrite nth_error_map, Hq; reflexivity).
+    destruct (Hall _ _ Hs) as (s & Hn & Hr). rewrite grun_rrun in Hr. exists s. split; [assumption|]. split; [assumption|].
+    exact (t_rpc_result_is_handler_or_deadline crash h _ s Hr).
+  - intros i l. apply pstep_enabled.
+Qed.
